@@ -95,6 +95,7 @@ func (fx *FuncCtx) step(st *State, in ssa.Instruction) (forks []*State, ended bo
 	case *ssa.Store:
 		p := st.ptr(x.Addr, x.Pos(), "store")
 		st.Store(p, st.val(x.Val))
+		fx.afterStore(st, x)
 	case *ssa.Convert:
 		f.vals[x] = fx.convert(st, x)
 	case *ssa.ChangeType:
